@@ -256,17 +256,28 @@ func (c *Ctl) snapshot() (allSettled bool, blocked map[int64]bool) {
 // runtime (same blocked set in two consecutive samples).
 func (c *Ctl) waitQuiet() {
 	var prev map[int64]bool
+	same := 0
 	for i := 0; ; i++ {
 		runtime.Gosched()
 		ok, b := c.snapshot()
 		if ok {
+			// the same set of blocked threads in three consecutive samples, a little apart: a thread that
+			// only waits a moment for a lock of code outside the controller is not "blocked"
 			if prev != nil && sameSet(prev, b) {
-				c.lastBlk = b
-				return
+				same++
+				if same >= 2 {
+					c.lastBlk = b
+					return
+				}
+				if len(b) > 0 {
+					time.Sleep(60 * time.Microsecond)
+				}
+			} else {
+				same = 0
 			}
 			prev = b
 		} else {
-			prev = nil
+			prev, same = nil, 0
 		}
 		if i > 20 {
 			time.Sleep(20 * time.Microsecond)
